@@ -64,7 +64,7 @@ def corrupt(text, t):
         nums = [(m.start(), m.end()) for m in _re.finditer(r"(?<![A-Za-z_0-9.])[-+]?[0-9]+(?:\.[0-9]+)?(?:[eE][-+]?[0-9]+)?", text)]
         if nums:
             a, b = nums[t.randrange(len(nums))]
-            lit = t.choice(["-1", "-2", "-3", "1.0e999", "-2.5E+400", "1.0e-999", "99999999999999999999999999", "-99999999999999999999", "0000", "+5", "00.5", ".5", "5.", "1e5", "0x10", "1_000", "1.5.2", "--1", "1e", "-0", "-0.0", "9" * 400])
+            lit = t.choice(["-1", "-2", "-3", "1.0e999", "-2.5E+400", "1.0e-999", "99999999999999999999999999", "-99999999999999999999", "0000", "+5", "00.5", ".5", "5.", "1e5", "0x10", "1_000", "1.5.2", "--1", "1e", "-0", "-0.0", "9" * 400, "9" * 5000])
             return text[:a] + lit + text[b:], {"kind": "number", "at": a, "lit": lit[:12]}
         kind = "truncate"
     if kind == "truncate":
@@ -891,7 +891,7 @@ def plan_c16(run_seed):
             if calls:
                 c_ = t.choice(calls)
                 rn = e["prog"]["reg"][0] if e["prog"].get("reg") else "q"
-                c_["args"][t.randrange(len(c_["args"]))] = t.choice([["num", 1.5], ["num", 2.0], ["num", 1], ["id", rn], ["item", rn, 0], ["num", -1]])
+                c_["args"][t.randrange(len(c_["args"]))] = t.choice([["num", 1.5], ["num", 2.0], ["num", 1], ["id", rn], ["item", rn, 0], ["num", -1], ["raw", "1.0e999"], ["raw", "-2.0E+400"]])
                 e["exec"] = False
         if t.chance(0.12):
             # unusual but lexically legal: a negative loop or subcircuit count
